@@ -480,6 +480,10 @@ class DiameterAVP(object):
             except KeyError as e:
                 avps.append(avp)
 
+            except RecursionError:
+                raise AVPParsingError("invalid bytes stream. Grouped AVPs "\
+                                      "are nested too deeply")
+
         return avps
 
 
